@@ -191,6 +191,11 @@ def bounds_grid_stratum(ctx, ws):
         for (lo, hi, form) in ((r, r, "int"), (r, r, "range"), (0, 5000, "range"), (r + 1, r + 5, "range"), (max(0, r - 3), r - 1, "range"), (1001, 3000, "range")):
             jobs.append(("item", r, lo, hi, form))
         jobs.append(("$and", r // 2, r // 2, r // 2, "int"))
+    # "N or more": the DSL has no open-ended form, so rules use a huge max (a million and beyond); a bound is a number, however many digits
+    for kind in ("item", "item-operands", "$and", "$or", "$not"):
+        for r in range(0, 5):
+            for lo, hi in ((0, 1000000), (1, 1000000), (2, 10000000), (3, 999999), (1, 1048576), (2, 123456789)):
+                jobs.append((kind, r, lo, hi, "range"))
     # the same counts and bounds handed to the element as macro ARGUMENTS (`times: cnt` in the macro body, `cnt: 3` at the call)
     for kind in GRID_KINDS:
         if kind in ("deref-operand", "or-operand"):
@@ -260,6 +265,19 @@ def bounds_grid_stratum(ctx, ws):
         text = L.render(insts, ctx.rng, labels=False)
         lp = ws.write("grid.s", text)
         rule = real.dump_rule({"config": {"mnemonics-full-match": True}, **({"macros": macros} if macros else {}), "pattern": pattern})
+        if i % 6 == 5:
+            # the same document in YAML flow style with nothing after the colons of its keys (`{nop:{times:{min: 1, max: 3}}}`): used when the
+            # YAML reader the project names (PyYAML's SafeLoader) reads it back as the same document
+            import yaml as _yaml
+            doc_ = _yaml.safe_load(rule)
+            compact = _yaml.safe_dump(doc_, default_flow_style=True, width=10000, sort_keys=False).replace(": {", ":{").replace(": [", ":[")
+            try:
+                same = _yaml.safe_load(compact) == doc_
+            except _yaml.YAMLError:
+                same = False
+            if same:
+                rule = compact
+                ctx.event("bounds_grid_cells_in_compact_flow_style")
         res = real.match(ws.write("grid.yaml", rule), lp, ret="list", search="all", only_addr=False)
         ctx.ran()
         ctx.event("bounds_grid_cells")
